@@ -26,7 +26,8 @@ Inductive sop :=
 | SNewNat (i : N) (c : ncfg)
 | SDropFrom (i : N)        (* lose everything in flight that node i sent (i = 0: everything) *)
 | SAlias (i p : N)         (* node i sits behind a port-forwarding router with public address p *)
-| SMute (i : N) (on : bool).   (* from now on everything node i sends is lost (on) / gets through again (off) *)
+| SMute (i : N) (on : bool)    (* from now on everything node i sends is lost (on) / gets through again (off) *)
+| SSetClaims (i : N) (cl : list (bytes * N)).   (* node i's own claims change at run time (re-configuration / restart with other claims) *)
 
 Record sys := {
   s_nodes : list (N * node);
@@ -84,6 +85,16 @@ Definition run_event (salts : list (N * N)) (s : sys) (i : N) (e : event) : sys 
                    | None => s_nat s
                    end; s_alias := s_alias s; s_muted := s_muted s |}, em)
   end.
+
+(* the node with other own claims; everything else, including connections, stays *)
+Definition with_claims (n : node) (cl : list (bytes * N)) : node :=
+  let c := n_cfg n in
+  {| n_cfg := {| c_num := c_num c; c_addr := c_addr c; c_peer_timeout := c_peer_timeout c; c_keepalive := c_keepalive c;
+                 c_switch_timeout := c_switch_timeout c; c_learning := c_learning c; c_broadcast := c_broadcast c; c_tap := c_tap c;
+                 c_claims := cl; c_key := c_key c; c_trusted := c_trusted c; c_algos := c_algos c |};
+     n_peers := n_peers n; n_pending := n_pending n; n_own := n_own n; n_table := n_table n;
+     n_next_peers := n_next_peers n; n_next_own_reset := n_next_own_reset n; n_reconnect := n_reconnect n;
+     n_dropped := n_dropped n; n_invalid := n_invalid n; n_objs := n_objs n |}.
 
 Definition has_node (s : sys) (i : N) : bool := ahas (s_nodes s) i.
 
@@ -193,6 +204,12 @@ Definition sstep (salts : list (N * N)) (s : sys) (o : sop) : sys * sout :=
   | SNewNat i c =>
       ({| s_nodes := aset (s_nodes s) i (node_new c (s_now s)); s_now := s_now s; s_sent := s_sent s; s_queue := s_queue s;
           s_writes := s_writes s; s_nat := aset (s_nat s) i []; s_alias := s_alias s; s_muted := s_muted s |}, SONone)
+  | SSetClaims i cl =>
+      match aget (s_nodes s) i with
+      | None => (s, SOMissing)
+      | Some n => ({| s_nodes := aset (s_nodes s) i (with_claims n cl); s_now := s_now s; s_sent := s_sent s; s_queue := s_queue s;
+                      s_writes := s_writes s; s_nat := s_nat s; s_alias := s_alias s; s_muted := s_muted s |}, SONone)
+      end
   | SMute i on =>
       ({| s_nodes := s_nodes s; s_now := s_now s; s_sent := s_sent s; s_queue := s_queue s; s_writes := s_writes s;
           s_nat := s_nat s; s_alias := s_alias s;
